@@ -191,7 +191,9 @@ pub fn run_pipeline(
 
     let mut fds_capture_stdout = None;
     let mut fds_capture_stderr = None;
-    if capture {
+    // a single builtin runs in the shell itself and hands its output back in
+    // its CommandResult: it never uses (or closes) the capture pipes.
+    if capture && !cl.is_single_and_builtin() {
         match pipe() {
             Ok(fds) => fds_capture_stdout = Some(fds),
             Err(e) => {
